@@ -535,9 +535,11 @@ example : scanCC (sortDesc [['m', 'a', 'x', '-', 'a', 'g', 'e']]) = .bad := by d
 
 /-! ### the store key (finding C15-N1) -/
 
-/-- Two different (path, query) pairs with the same store key: `/a?x` + empty query and `/a` + `x`. -/
+/-- Two different (path, query) pairs with the same store key `cherrypy.url(qs=...)`: `/a?x` + empty query and
+    `/a` + `x`. -/
 theorem C15_uriKey_collision :
-    uriKey ['/', 'a', '?', 'x'] [] = uriKey ['/', 'a'] ['x'] ∧ (['/', 'a', '?', 'x'], ([] : Str)) ≠ (['/', 'a'], ['x']) := by
+    uriKeyWith false ['/', 'a', '?', 'x'] [] = uriKeyWith false ['/', 'a'] ['x'] ∧
+      (['/', 'a', '?', 'x'], ([] : Str)) ≠ (['/', 'a'], ['x']) := by
   decide
 
 theorem append_q_inj (p1 q1 p2 q2 : Str) (h1 : '?' ∉ p1) (h2 : '?' ∉ p2)
@@ -561,8 +563,8 @@ theorem append_q_inj (p1 q1 p2 q2 : Str) (h1 : '?' ∉ p1) (h2 : '?' ∉ p2)
 
 /-- ... and that is the only way: for paths without `?` the key determines path and query. -/
 theorem C15_uriKey_injective_partial (p1 q1 p2 q2 : Str) (h1 : '?' ∉ p1) (h2 : '?' ∉ p2)
-    (h : uriKey p1 q1 = uriKey p2 q2) : p1 = p2 ∧ q1 = q2 := by
-  unfold uriKey at h
+    (h : uriKeyWith false p1 q1 = uriKeyWith false p2 q2) : p1 = p2 ∧ q1 = q2 := by
+  simp only [uriKeyWith, Bool.false_eq_true, if_false] at h
   split at h <;> split at h
   · rename_i a b; exact ⟨h, a.trans b.symm⟩
   · rename_i a b
@@ -570,6 +572,84 @@ theorem C15_uriKey_injective_partial (p1 q1 p2 q2 : Str) (h1 : '?' ∉ p1) (h2 :
   · rename_i a b
     exact absurd (by rw [← h]; simp) h2
   · exact append_q_inj p1 q1 p2 q2 h1 h2 h
+
+theorem escPath_no_q (p : Str) : '?' ∉ escPath p := by
+  induction p with
+  | nil => simp [escPath]
+  | cons c cs ih =>
+    simp only [escPath]
+    split
+    · simp [ih]
+    · split
+      · simp [ih]
+      · rename_i h1 h2
+        simp only [List.mem_cons, not_or]
+        exact ⟨fun h => h2 h.symm, ih⟩
+
+theorem escPath_inj (p1 p2 : Str) (h : escPath p1 = escPath p2) : p1 = p2 := by
+  have hq : ('?' : Char) ≠ '%' := by decide
+  induction p1 generalizing p2 with
+  | nil =>
+    cases p2 with
+    | nil => rfl
+    | cons b bs =>
+      simp only [escPath] at h
+      split at h
+      · cases h
+      · split at h <;> cases h
+  | cons a as ih =>
+    cases p2 with
+    | nil =>
+      simp only [escPath] at h
+      split at h
+      · cases h
+      · split at h <;> cases h
+    | cons b bs =>
+      simp only [escPath] at h
+      by_cases ha : a = '%'
+      · subst ha
+        by_cases hb : b = '%'
+        · subst hb
+          simp only [if_true, List.cons.injEq, true_and] at h
+          rw [ih bs h]
+        · by_cases hb2 : b = '?'
+          · subst hb2
+            simp [hq] at h
+          · simp only [if_true, hb, hb2, if_false, List.cons.injEq] at h
+            exact absurd h.1.symm hb
+      · by_cases ha2 : a = '?'
+        · subst ha2
+          by_cases hb : b = '%'
+          · subst hb
+            simp [hq] at h
+          · by_cases hb2 : b = '?'
+            · subst hb2
+              simp only [hq, if_false, if_true, List.cons.injEq, true_and] at h
+              rw [ih bs h]
+            · simp only [hq, if_false, if_true, hb, hb2, List.cons.injEq] at h
+              exact absurd h.1.symm hb
+        · by_cases hb : b = '%'
+          · subst hb
+            simp only [ha, ha2, if_false, if_true, List.cons.injEq] at h
+            exact h.1.elim
+          · by_cases hb2 : b = '?'
+            · subst hb2
+              simp only [ha, ha2, hq, if_false, if_true, List.cons.injEq] at h
+              exact h.1.elim
+            · simp only [ha, ha2, hb, hb2, if_false, List.cons.injEq] at h
+              rw [h.1, ih bs h.2]
+
+/-- **The repaired key is injective**: with `%` and `?` of the path percent-encoded, the key determines the path
+    and the query string (proposed fix `C15-resource-key`). -/
+theorem C15_uriKey_injective_escaped (p1 q1 p2 q2 : Str)
+    (h : uriKeyWith true p1 q1 = uriKeyWith true p2 q2) : p1 = p2 ∧ q1 = q2 := by
+  simp only [uriKeyWith, if_true] at h
+  split at h <;> split at h
+  · rename_i a b; exact ⟨escPath_inj _ _ h, a.trans b.symm⟩
+  · exact absurd (by rw [h]; simp) (escPath_no_q p1)
+  · exact absurd (by rw [← h]; simp) (escPath_no_q p2)
+  · have := append_q_inj _ q1 _ q2 (escPath_no_q p1) (escPath_no_q p2) h
+    exact ⟨escPath_inj _ _ this.1, this.2⟩
 
 example : '?' ∉ (['/', 'a'] : Str) := by decide
 
